@@ -156,7 +156,10 @@ fn gen_objects(t: &mut Tape) -> Vec<ExtObject> {
             // class 1 with another c-type is still "MPLS" for a class-only dispatcher; keep
             // unknown objects away from class 1 so the truth is unambiguous
             let class = if class == 1 { 4 } else { class };
-            let len = 4 * t.weighted(&[30, 30, 20, 10, 10]);
+            // one object in five of an unknown class has a length that is not a whole number
+            // of 32-bit words: the length attribute counts octets, and the next object starts
+            // where this one ends
+            let len = if class != 1 && t.chance(200) { 1 + t.draw(19) as usize } else { 4 * t.weighted(&[30, 30, 20, 10, 10]) };
             let payload = (0..len).map(|_| t.draw(256) as u8).collect();
             v.push(ExtObject {
                 class,
@@ -568,7 +571,7 @@ pub fn gen_scenario(t: &mut Tape, p: &Profile) -> Scenario {
         scripted: Vec::new(),
         stall_pm: 0,
         stall_max_ns: 0,
-        addr_in_use_pm: 0, addr_in_use_from_round: 0, addr_in_use_udp: false, addr_in_use_burst: None,
+        addr_in_use_pm: 0, addr_in_use_from_round: 0, addr_in_use_udp: false, addr_in_use_burst: None, wall_clock_back: None,
         tick_base_ns: tick_base,
         tick_jitter_ns: tick_jitter,
     };
